@@ -167,7 +167,7 @@ def run_unit(unit, rng, ctx):
             cutoff = pick_cutoff(rng, dsite)
             freq = float(TrajectoryMetrics(tr.diff_trajectory).attempt_frequency()[0])
             if np.isfinite(freq) and freq > 0:
-                coll = j.collective(max_dist=cutoff)
+                coll = j.collective(max_dist=cutoff) if rng.integers(2) else j.collective(cutoff)  # the documented positional form
                 w = math.ceil(1.0 / (freq * sys_.time_step))
                 ctx.check(coll.max_steps == w, f'{what}: correlation window {coll.max_steps} != ceil(1/(f dt)) = {w}', wit)
                 a, b = check_collective(coll, rows, sys_, coll.max_steps, cutoff, ctx, what + ' [Jumps.collective]', wit)
